@@ -188,12 +188,18 @@ theorem C05_counterexample_F11 :
     lockedOf s = some true ∧ lastExtCT s 1 0 = some true := by
   decide
 
-/-- F13 (open on the current tree): the OnCommit closure of nextAddresses re-inserts address objects that were
+/-- F13 (tree without the fix): the OnCommit closure of nextAddresses re-inserts address objects that were
 built while unlocked; if the manager is locked between the call and the commit, the cache holds a clear-text key
 while locked.  So "stays clear while locked" is NOT an invariant of bracketed histories. -/
 theorem C05_counterexample_F13 :
-    let s := run {cfg := Cfg.fixed} [.create 5 1, .unlock 1, .begin, .next 1 0 1 false, .lock, .commit]
+    let s := run {cfg := { Cfg.fixed with f13 := false }} [.create 5 1, .unlock 1, .begin, .next 1 0 1 false, .lock, .commit]
     lockedOf s = some true ∧ addrCT s 1 (.chain 0 0 0) = some true := by
+  decide
+
+/-- … and with the F13 fix the same history leaves the cached object clear. -/
+example :
+    let s := run {cfg := Cfg.fixed} [.create 5 1, .unlock 1, .begin, .next 1 0 1 false, .lock, .commit]
+    lockedOf s = some true ∧ addrCT s 1 (.chain 0 0 0) = some false := by
   decide
 
 /-! ## 3. passphrases: the current one unlocks, any other fails and leaves the manager locked -/
@@ -334,10 +340,10 @@ theorem C05_unlock_right (cfg : Cfg) (hf2 : cfg.f2 = true) (hf2b : cfg.f2b = tru
   unfold unlock
   by_cases hl : m.locked = true
   · have h := unlockScopes_ok cfg hf2 hf2b d (List.range nScopes)
-      { m with masterPriv := .nonzero, cryptoPriv := .nonzero } (fun sc _ e he => hd sc e he) List.nodup_range
+      (unlockStart cfg m) (fun sc _ e he => hd sc e he) List.nodup_range
     rw [if_neg (by simp [hw]), if_neg (by simp [hl]), if_neg (by simp)]
     dsimp only
-    cases hr : unlockScopes cfg d (List.range nScopes) { m with masterPriv := .nonzero, cryptoPriv := .nonzero } with
+    cases hr : unlockScopes cfg d (List.range nScopes) (unlockStart cfg m) with
     | mk m2 e =>
       rw [hr] at h
       obtain ⟨h1, _⟩ := h
@@ -418,7 +424,10 @@ theorem passOK_unlock (cfg : Cfg) (d : Disk) (m : Mem) (p : Nat) (h : PassOK m)
       · rename_i hp
         have hp' : p = m.privPass := by simpa using hp
         dsimp only
-        have key := scal_unlockScopes_gen cfg d (List.range nScopes) { m with masterPriv := .nonzero, cryptoPriv := .nonzero }
+        have key := scal_unlockScopes_gen cfg d (List.range nScopes) (unlockStart cfg m)
+        have hus : (unlockStart cfg m).locked = m.locked ∧ (unlockStart cfg m).privPass = m.privPass ∧
+            (unlockStart cfg m).saltZero = m.saltZero := ⟨rfl, rfl, rfl⟩
+        rw [hus.1, hus.2.1, hus.2.2] at key
         split
         · rename_i m2 heq
           rw [heq] at key; simp only at key
@@ -514,7 +523,7 @@ theorem passOK_commitTx (s : State) (h : StPassOK s) : StPassOK (commitTx s) := 
   | none => rw [hs] at hm; cases hm
   | some m0 =>
     rw [hs] at hm; simp only [Option.map] at hm; cases hm
-    exact passOK_of_scal (scal_foldl_runPend _ _) (h m0 hs)
+    exact passOK_of_scal (scal_foldl_runPend _ _ _) (h m0 hs)
 
 theorem passOK_step (s : State) (op : Op) (h : StPassOK s) (hc : s.cfg.f12 = true ∨ op.noEmpty = true) :
     StPassOK (step s op).1 := by
@@ -688,5 +697,42 @@ example :
     let s := run { cfg := Cfg.fixed } [.create 5 1, .unlock 1, .changePass 1 EMPTY true]
     (step s (.unlock EMPTY)).2 = .ok := by
   decide
+
+/-! ## 6. the crypto keys while unlocked (tree with b81a3ff: Unlock restores the script key too) -/
+
+/-- a successful Unlock of a locked manager leaves the master key, the private crypto key and (fo1) the script
+crypto key populated: secret scripts are sealed under a real key, not the all-zero one.  Together with
+`C05_wiped_by_lock` (all three are zero after lock) this is the buffer map of the keys. -/
+theorem C05_unlock_restores_keys (cfg : Cfg) (hfo1 : cfg.fo1 = true) (d : Disk) (m : Mem) (p : Nat)
+    (hl : m.locked = true) (h : (unlock cfg d m p).2 = none) :
+    (unlock cfg d m p).1.locked = false ∧ (unlock cfg d m p).1.masterPriv = .nonzero ∧
+    (unlock cfg d m p).1.cryptoPriv = .nonzero ∧ (unlock cfg d m p).1.cryptoScript = .nonzero := by
+  unfold unlock at h ⊢
+  split at h
+  · cases h
+  · rename_i hw
+    rw [if_neg hw]
+    split at h
+    · rename_i hnl; simp [hl] at hnl
+    · rename_i hnl
+      rw [if_neg hnl]
+      split at h
+      · cases h
+      · rename_i hp
+        rw [if_neg hp]
+        dsimp only at h ⊢
+        have key := scal_unlockScopes cfg d (List.range nScopes) (unlockStart cfg m)
+        cases hr : unlockScopes cfg d (List.range nScopes) (unlockStart cfg m) with
+        | mk m2 e =>
+          rw [hr] at h key
+          simp only at key
+          have h3 : m2.masterPriv = .nonzero := congrArg (·.2.2.1) key
+          have h4 : m2.cryptoPriv = .nonzero := congrArg (·.2.2.2.1) key
+          have h5 : m2.cryptoScript = .nonzero := by
+            have h5' : m2.cryptoScript = (unlockStart cfg m).cryptoScript := congrArg (·.2.2.2.2.1) key
+            rw [h5']; simp [unlockStart, hfo1]
+          cases e with
+          | none => exact ⟨rfl, h3, h4, h5⟩
+          | some e => cases e <;> simp at h
 
 end AddrLock
